@@ -86,6 +86,12 @@ def check(run: Run) -> None:
                 run.finding("C08.b", f"make_feedback_sink_node:{k}", f"{k} must be {v}, is {sl.get(k)}", loc=FB)
         if "node_schema.output_schema" in sl:
             run.finding("C08.b", "make_feedback_sink_node:output", "the feedback sink must not have an output (no same-cycle edge to the reader)", loc=FB)
+        # every tick of the producer is a written value to deliver: the sink's evaluation gate is exactly "input 0 valid", nothing stronger
+        for k in ("node_schema.all_valid_inputs", "node_schema.structural_inputs"):
+            run.count(1)
+            if k in sl and sl[k] not in ("std::vector<std::size_t>{}", "{}", "std::nullopt"):
+                run.finding("C08.b", f"make_feedback_sink_node:{k}", f"{k} = {sl[k]}: a stronger gate than 'the producer input is valid' makes the sink skip producer "
+                            "ticks (e.g. a bundle / list of which only some elements have ticked): written values are never delivered", loc=FB)
 
     with run.obligation("C08.c", "K5+K6", "make_feedback_source_node: PullSource whose evaluate applies exactly the stored delta to its output; start "
                         "hook set iff an initial delta exists and schedules (node_index, start_time) after loading the state"):
@@ -182,6 +188,7 @@ def check(run: Run) -> None:
 
 
 VARIANTS = [
+    {"id": "b-sink-requires-all-valid", "expect": "C08.b", "edits": [{"file": FB, "find": "        node_schema.valid_inputs  = std::vector<std::size_t>{0};", "replace": "        node_schema.valid_inputs  = std::vector<std::size_t>{0};\n        node_schema.all_valid_inputs = std::vector<std::size_t>{0};"}]},
     {"id": "f-passive-erase-by-position", "expect": "C08.f", "edits": [{"file": "src/hgraph/runtime/node.cpp", "find": "std::erase(active, slot);", "replace": "active.erase(active.begin() + static_cast<std::ptrdiff_t>(slot));"}]},
     {"id": "a-same-cycle", "expect": "C08.a", "edits": [{"file": FB, "find": "graph->schedule_node(source_node.node_index(), evaluation_time + MIN_TD);", "replace": "graph->schedule_node(source_node.node_index(), evaluation_time);"}]},
     {"id": "a-two-steps", "expect": "C08.a", "edits": [{"file": FB, "find": "graph->schedule_node(source_node.node_index(), evaluation_time + MIN_TD);", "replace": "graph->schedule_node(source_node.node_index(), evaluation_time + MIN_TD + MIN_TD);"}]},
